@@ -96,7 +96,7 @@ Proof. unfold unnamed_step. ap_tac. Qed.
 #[global] Hint Resolve ap_unnamed_step : ap.
 Lemma ap_via_union {Sc n key leaf} : (forall n', ap (leaf n')) -> ap (via_union Sc n key leaf).
 Proof. intro H. unfold via_union. destruct n; auto. ap_tac; auto. Qed.
-Lemma ap_unit_variant_null Sc n variant m : ap m -> ap (unit_variant_null Sc n variant m).
+Lemma ap_unit_variant_null Sc n ename variant m : ap m -> ap (unit_variant_null Sc n ename variant m).
 Proof.
   intro H. unfold unit_variant_null. destruct n; auto.
   destruct (union_named Sc variants variant) as [[d k']|]; auto.
